@@ -6,6 +6,8 @@
 // the runner builds with; nothing in /repo refers to it.
 package verifyield
 
+import "sync"
+
 // Hook is set by the harness that owns the current run; nil = run on.
 var Hook func(site string)
 
@@ -14,4 +16,82 @@ func Yield(site string) {
 	if h := Hook; h != nil {
 		h(site)
 	}
+}
+
+// Cooperative locks. In the copies tools/yieldinst makes in "coop" mode, Lock,
+// RLock, Unlock and RUnlock on the package's own sync.Mutex / sync.RWMutex
+// values go through the functions below. The lock is still the real one
+// (TryLock / Unlock on the very same value, so un-instrumented users of it
+// keep working); what changes is how a goroutine WAITS for it: on a channel
+// instead of inside sync.Mutex.Lock. testing/synctest counts the former as
+// durably blocked and the latter not, so without this a lock held across a
+// simulated slow system call stops the fake clock for good (a real-time hang
+// of the run) instead of delaying the others in fake time as it does on a real
+// system.
+
+
+var (
+	wmu     sync.Mutex // never held across anything that blocks
+	waiters = map[any][]chan struct{}{}
+)
+
+func lockLoop(k any, try func() bool) {
+	for {
+		if try() {
+			return
+		}
+		ch := make(chan struct{})
+		wmu.Lock()
+		waiters[k] = append(waiters[k], ch)
+		wmu.Unlock()
+		// an unlock between the failed attempt and the registration must not be
+		// lost: try once more (a stale channel is closed by the next wake-up)
+		if try() {
+			return
+		}
+		<-ch
+	}
+}
+
+func wake(k any) {
+	wmu.Lock()
+	l := waiters[k]
+	delete(waiters, k)
+	wmu.Unlock()
+	for _, ch := range l {
+		close(ch)
+	}
+}
+
+// Lock is l.Lock().
+func Lock(l any) {
+	switch m := l.(type) {
+	case *sync.Mutex:
+		lockLoop(m, m.TryLock)
+	case *sync.RWMutex:
+		lockLoop(m, m.TryLock)
+	default:
+		l.(interface{ Lock() }).Lock()
+	}
+}
+
+// RLock is l.RLock().
+func RLock(l any) {
+	if m, ok := l.(*sync.RWMutex); ok {
+		lockLoop(m, m.TryRLock)
+		return
+	}
+	l.(interface{ RLock() }).RLock()
+}
+
+// Unlock is l.Unlock().
+func Unlock(l any) {
+	l.(interface{ Unlock() }).Unlock()
+	wake(l)
+}
+
+// RUnlock is l.RUnlock().
+func RUnlock(l any) {
+	l.(interface{ RUnlock() }).RUnlock()
+	wake(l)
 }
